@@ -5,10 +5,42 @@ padded with many zeros, near-miss spellings of protocol and coding names.  Legal
 Each item is a dict: stream, cuts (list of cut-position lists), label, and for requests cfg = (rl, hl, max), for
 responses hl.  The property classes wrap them into groups with their own member roles and oracles."""
 from . import gen
+from . import srcdict
 
 CRLF = b"\r\n"
 SIZES = sorted(set(v + d for v in (100, 128, 256, 512, 1000, 1024, 2048, 4096, 8192, 10000, 16384, 32768, 65536) for d in (-1, 0, 1)))
 COUNTS = sorted(set(v + d for v in (16, 32, 64, 100, 128, 256, 1000, 1024) for d in (-1, 0, 1)))
+SIZES = sorted(set(SIZES) | set(v for v in srcdict.sizes_around() if 3 <= v <= 1_100_001))
+COUNTS = sorted(set(COUNTS) | set(v for v in srcdict.sizes_around() if 3 <= v <= 5001))
+
+HEADERS_OF_INTEREST = [b"Transfer-Encoding", b"Content-Encoding", b"Content-Type", b"Connection", b"Expect", b"Trailer", b"Content-Range", b"Upgrade", b"TE",
+                       b"Accept-Encoding", b"Content-Length", b"Host"]
+
+
+def dictionary(rng, tier):
+    """-> (requests, responses): the token-like string literals of the source as methods, header names, header values of
+    the headers of interest (and of the header-name-like literals), list elements, media types and parameters"""
+    d = srcdict.load()
+    toks = [t for t in d["tokens"] if b"\r" not in t and b"\n" not in t]
+    names = sorted(set(HEADERS_OF_INTEREST) | set(d["names"]))
+    reqs, resps = [], []
+    chunked_body = b"5\r\nhello\r\n0\r\n\r\nZ"
+    for t in toks:
+        for h in names:
+            for v in (t, b"x, " + t, t + b", chunked" if h.lower() == b"transfer-encoding" else t + b"; q=1"):
+                line = h + b": " + v + b"\r\n"
+                reqs.append(("%s: %s" % (h.decode(), v.decode("latin-1")), b"POST / HTTP/1.1\r\n" + line + b"Content-Length: 3\r\n\r\nabcXY"))
+                resps.append(("%s: %s (fixed)" % (h.decode(), v.decode("latin-1")), b"HTTP/1.1 200 OK\r\n" + line + b"Content-Length: 3\r\n\r\nabcXY"))
+                if h.lower() != b"transfer-encoding":
+                    resps.append(("%s: %s (chunked)" % (h.decode(), v.decode("latin-1")), b"HTTP/1.1 200 OK\r\n" + line + b"Transfer-Encoding: chunked\r\n\r\n" + chunked_body))
+                else:
+                    resps.append(("%s: %s (chunked syntax follows)" % (h.decode(), v.decode("latin-1")), b"HTTP/1.1 200 OK\r\n" + line + b"\r\n" + chunked_body))
+        if b" " not in t:
+            reqs.append(("method %s" % t.decode("latin-1"), t + b" / HTTP/1.1\r\nHost: a\r\n\r\n"))
+            reqs.append(("header name %s" % t.decode("latin-1"), b"GET / HTTP/1.1\r\n" + t + b": v\r\n\r\n"))
+            resps.append(("header name %s" % t.decode("latin-1"), b"HTTP/1.1 200 OK\r\n" + t + b": 3\r\nContent-Length: 3\r\n\r\nabcXY"))
+            resps.append(("trailer field %s" % t.decode("latin-1"), b"HTTP/1.1 200 OK\r\nTransfer-Encoding: chunked\r\n\r\n2\r\nab\r\n0\r\n" + t + b": v\r\nX: y\r\n\r\nZ"))
+    return reqs, resps
 
 
 def _cuts(s, extra=()):
@@ -79,7 +111,9 @@ def requests(rng, tier):
         sweep.append(("%d header fields" % n, b"GET / HTTP/1.1\r\n" + hs + b"\r\n", (16 + len(hs), 16 + len(hs) + 1)))
         sweep.append(("one field repeated %d times" % n, b"GET / HTTP/1.1\r\n" + b"Accept: a\r\n" * n + b"\r\n", ()))
         sweep.append(("a header folded over %d lines" % n, b"GET / HTTP/1.1\r\nX: a\r\n" + b" b\r\n" * n + b"\r\n", ()))
-    for label, s, extra in (sweep if tier != "quick" else rng.sample(sweep, 40)):
+    from_src = set(srcdict.sizes_around())
+    keep = [x for x in sweep if any(str(v) in x[0].split() for v in from_src)]
+    for label, s, extra in (sweep if tier != "quick" else keep + rng.sample(sweep, 40)):
         add(label, s, nolim, extra)
     for ex in (b"100-continue", b"100-Continue", b"x, 100-continue"):
         for d in (10, 200_000_000, 2 ** 40, 2 ** 63):
@@ -139,7 +173,9 @@ def responses(rng, tier):
         sweep.append(("%d trailer fields" % n, chunked + b"0\r\n" + b"".join(b"T%d: v\r\n" % i for i in range(n)) + b"\r\n", ()))
         sweep.append(("%d chunks" % n, chunked + b"1\r\nx\r\n" * n + b"0\r\n\r\n", ()))
         sweep.append(("%d Transfer-Encoding fields" % n, b"HTTP/1.1 200 OK\r\n" + b"Transfer-Encoding: gzip\r\n" * n + b"Transfer-Encoding: chunked\r\n\r\n2\r\nab\r\n0\r\n\r\n", ()))
-    for label, s, extra in (sweep if tier != "quick" else rng.sample(sweep, 50)):
+    from_src = set(srcdict.sizes_around())
+    keep = [x for x in sweep if any(str(v) in x[0].split() for v in from_src)]
+    for label, s, extra in (sweep if tier != "quick" else keep + rng.sample(sweep, 50)):
         add(label, s, None, extra)
     for cl in (b"", b" ", b"\t"):
         add("empty Content-Length %r next to chunked" % cl, b"HTTP/1.1 200 OK\r\nContent-Length:" + cl + b"\r\nTransfer-Encoding: chunked\r\n\r\n5\r\nhello\r\n0\r\n\r\n")
